@@ -118,6 +118,8 @@ def _tagkey(tag):
             ch = [c for c in t.children() if not z3.is_int_value(c)]
             if len(ch) == 1:
                 t = ch[0]
+            elif len(ch) > 1 and len(ch) < len(t.children()):
+                t = z3.simplify(z3.Sum(ch))
         return t.get_id()
     except Exception:
         return None
